@@ -199,6 +199,12 @@ def bidiagonalize_real_matrix_pair_with_symmetric_products(
     rank = dim
     while rank > 0 and tolerance.all_near_zero(base_diag[rank - 1, rank - 1], atol=atol):
         rank -= 1
+    # Singular values that the simultaneous diagonalization below treats as equal must stay on
+    # the same side of the cut, otherwise their (coupled) block of mat2 is torn apart.
+    while 0 < rank < dim and np.allclose(
+        base_diag[rank - 1, rank - 1], base_diag[rank, rank], rtol=rtol
+    ):
+        rank -= 1
     base_diag = base_diag[:rank, :rank]
 
     # Try diagonalizing the second matrix with the same factors as the first.
